@@ -189,6 +189,8 @@ def gen_cases(ctx):
                 shape = ts_shapes[int(rng.integers(len(ts_shapes)))]
             else:
                 pool = [s for s in img_shapes if s[2] in (1, 3)] if name in ("Lime", "KernelShap") else img_shapes
+                if METHODS.index(name) < 10:        # gradient-based methods also see strip images (a singleton side)
+                    pool = pool + [(1, 5, 3), (5, 1, 2)]
                 shape = pool[(METHODS.index(name) + j // 3 + int(rng.integers(2))) % len(pool)]   # channel counts 1..4 spread over the methods
             n = int(rng.choice([1, 2, 3, 5, 6, 9]))
             cont = dict(containers[(j + int(rng.integers(len(containers)))) % len(containers)])
